@@ -32,66 +32,60 @@ Proof.
   destruct ((pb <=? fails s a + 1) || (mf <=? fails s a + 1)); cbn; repeat split; reflexivity.
 Qed.
 
-(* what a handler call can do to the server state and to the ControlConnection *)
-Inductive auth_result (keep : bool) (s : srv) (c : cc) (a : N) (m : hs) : srv -> cc -> aresp -> Prop :=
-| AR_gated : blocked s a = true \/ banned s a = true \/ (h_cid m = 0 /\ rl_deny s = true) ->
-    auth_result keep s c a m s c AFail
-| AR_new : blocked s a = false -> banned s a = false -> h_cid m = 0 -> rl_deny s = false -> h_new m = true ->
-    auth_result keep s c a m (first_state keep s a)
-      {| authed := true; ccid := next_id s; pending := pending c |} (ASuccessNew (next_id s))
-| AR_unknown : blocked s a = false -> banned s a = false -> clients s (h_cid m) = None ->
-    auth_result keep s c a m (record_failure s a) c AFail
-| AR_expired : forall cl, blocked s a = false -> banned s a = false -> clients s (h_cid m) = Some cl -> expired cl = true ->
-    auth_result keep s c a m s c AFail
-| AR_phase1 : forall cl, blocked s a = false -> banned s a = false -> clients s (h_cid m) = Some cl -> expired cl = false ->
-    h_resp m = None -> stored cl <> CEmpty ->
-    auth_result keep s c a m (bump_nonce s) {| authed := authed c; ccid := ccid c; pending := Some (next_nonce s) |}
-      (AChallenge (next_nonce s))
-| AR_nochal : forall cl r, blocked s a = false -> banned s a = false -> clients s (h_cid m) = Some cl -> expired cl = false ->
-    h_resp m = Some r -> pending c = None ->
-    auth_result keep s c a m (record_failure s a) c AFail
-| AR_ok : forall cl sec ch, blocked s a = false -> banned s a = false -> clients s (h_cid m) = Some cl -> expired cl = false ->
-    stored cl = CKey sec -> h_resp m = Some (hmac sec ch) -> pending c = Some ch ->
-    auth_result keep s c a m (clear_fails s a) {| authed := true; ccid := h_cid m; pending := None |} ASuccess
-| AR_bad : forall cl ch r, blocked s a = false -> banned s a = false -> clients s (h_cid m) = Some cl -> expired cl = false ->
-    h_resp m = Some r -> pending c = Some ch -> (forall sec, stored cl = CKey sec -> r <> hmac sec ch) ->
-    auth_result keep s c a m (record_failure s a) {| authed := authed c; ccid := ccid c; pending := None |} AFail
-| AR_noconf : forall cl, blocked s a = false -> banned s a = false -> clients s (h_cid m) = Some cl -> expired cl = false ->
-    h_resp m = None -> stored cl = CEmpty ->
-    auth_result keep s c a m s c AFail.
-
-Lemma auth_cases keep s c a m : let '(s1, c1, ar) := auth keep s c a m in auth_result keep s c a m s1 c1 ar.
+Lemma gate_fail_false s a m : gate_fail true s a m = false ->
+  blocked s a = false /\ banned s a = false /\ (h_cid m = 0 -> rl_deny s = false).
 Proof.
-  unfold Auth.auth.
-  destruct (blocked s a) eqn:Hb; [apply AR_gated; auto|].
-  destruct (banned s a) eqn:Hn; [apply AR_gated; auto|].
-  destruct (h_cid m =? 0) eqn:H0; cbn [andb].
-  - apply N.eqb_eq in H0.
-    destruct (rl_deny s) eqn:Hr; [apply AR_gated; auto|].
-    destruct (h_new m) eqn:Hnew; [apply AR_new; auto|].
-    destruct (clients s (h_cid m)) as [cl|] eqn:Hc; [|apply AR_unknown; auto].
-    destruct (expired cl) eqn:He; [eapply AR_expired; eauto|].
-    destruct (h_resp m) as [r|] eqn:Hr'.
-    2:{ destruct (stored cl) eqn:Hst; [eapply AR_phase1; eauto; congruence|eapply AR_noconf; eauto|eapply AR_phase1; eauto; congruence]. }
-    destruct (pending c) as [ch|] eqn:Hp; [|eapply AR_nochal; eauto].
-    destruct (stored cl) as [sec| |] eqn:Hst; cbn [secret_of].
-    + destruct (N.eqb_spec r (hmac sec ch)) as [->|Hne]; [eapply AR_ok; eauto|eapply AR_bad; eauto].
-      intros sec' E. rewrite Hst in E. injection E as <-. exact Hne.
-    + eapply AR_bad; eauto. intros sec' E. rewrite Hst in E. discriminate.
-    + eapply AR_bad; eauto. intros sec' E. rewrite Hst in E. discriminate.
-  - destruct (clients s (h_cid m)) as [cl|] eqn:Hc; [|apply AR_unknown; auto].
-    destruct (expired cl) eqn:He; [eapply AR_expired; eauto|].
-    destruct (h_resp m) as [r|] eqn:Hr'.
-    2:{ destruct (stored cl) eqn:Hst; [eapply AR_phase1; eauto; congruence|eapply AR_noconf; eauto|eapply AR_phase1; eauto; congruence]. }
-    destruct (pending c) as [ch|] eqn:Hp; [|eapply AR_nochal; eauto].
-    destruct (stored cl) as [sec| |] eqn:Hst; cbn [secret_of].
-    + destruct (N.eqb_spec r (hmac sec ch)) as [->|Hne]; [eapply AR_ok; eauto|eapply AR_bad; eauto].
-      intros sec' E. rewrite Hst in E. injection E as <-. exact Hne.
-    + eapply AR_bad; eauto. intros sec' E. rewrite Hst in E. discriminate.
-    + eapply AR_bad; eauto. intros sec' E. rewrite Hst in E. discriminate.
+  unfold gate_fail. cbn [andb]. intro H. apply orb_false_iff in H as [H H3]. apply orb_false_iff in H as [H1 H2].
+  split; [exact H1|]. split; [exact H2|]. intro E. rewrite E in H3. exact H3.
 Qed.
 
-Lemma auth_result_frame keep s c a m s1 c1 ar : auth_result keep s c a m s1 c1 ar ->
+(* what a handler call can do to the server state and to the ControlConnection *)
+Inductive auth_result (chk keep : bool) (s : srv) (c : cc) (a : N) (m : hs) : srv -> cc -> aresp -> Prop :=
+| AR_gated : gate_fail chk s a m = true ->
+    auth_result chk keep s c a m s c AFail
+| AR_new : gate_fail chk s a m = false -> h_cid m = 0 -> h_new m = true ->
+    auth_result chk keep s c a m (first_state keep s a)
+      {| authed := true; ccid := next_id s; pending := pending c |} (ASuccessNew (next_id s))
+| AR_unknown : gate_fail chk s a m = false -> clients s (h_cid m) = None ->
+    auth_result chk keep s c a m (record_failure s a) c AFail
+| AR_expired : forall cl, gate_fail chk s a m = false -> clients s (h_cid m) = Some cl -> expired cl = true ->
+    auth_result chk keep s c a m s c AFail
+| AR_phase1 : forall cl, gate_fail chk s a m = false -> clients s (h_cid m) = Some cl -> expired cl = false ->
+    h_resp m = None -> stored cl <> CEmpty ->
+    auth_result chk keep s c a m (bump_nonce s) {| authed := authed c; ccid := ccid c; pending := Some (next_nonce s) |}
+      (AChallenge (next_nonce s))
+| AR_nochal : forall cl r, gate_fail chk s a m = false -> clients s (h_cid m) = Some cl -> expired cl = false ->
+    h_resp m = Some r -> pending c = None ->
+    auth_result chk keep s c a m (record_failure s a) c AFail
+| AR_ok : forall cl sec ch, gate_fail chk s a m = false -> clients s (h_cid m) = Some cl -> expired cl = false ->
+    stored cl = CKey sec -> h_resp m = Some (hmac sec ch) -> pending c = Some ch ->
+    auth_result chk keep s c a m (clear_fails s a) {| authed := true; ccid := h_cid m; pending := None |} ASuccess
+| AR_bad : forall cl ch r, gate_fail chk s a m = false -> clients s (h_cid m) = Some cl -> expired cl = false ->
+    h_resp m = Some r -> pending c = Some ch -> (forall sec, stored cl = CKey sec -> r <> hmac sec ch) ->
+    auth_result chk keep s c a m (record_failure s a) {| authed := authed c; ccid := ccid c; pending := None |} AFail
+| AR_noconf : forall cl, gate_fail chk s a m = false -> clients s (h_cid m) = Some cl -> expired cl = false ->
+    h_resp m = None -> stored cl = CEmpty ->
+    auth_result chk keep s c a m s c AFail.
+
+Lemma auth_cases chk keep s c a m : let '(s1, c1, ar) := auth chk keep s c a m in auth_result chk keep s c a m s1 c1 ar.
+Proof.
+  unfold Auth.auth.
+  destruct (gate_fail chk s a m) eqn:Hg; [apply AR_gated; exact Hg|].
+  destruct ((h_cid m =? 0) && h_new m) eqn:Hfc.
+  { apply andb_prop in Hfc as [H0 Hnew]. apply N.eqb_eq in H0. apply AR_new; assumption. }
+  destruct (clients s (h_cid m)) as [cl|] eqn:Hc; [|apply AR_unknown; auto].
+  destruct (expired cl) eqn:He; [eapply AR_expired; eauto|].
+  destruct (h_resp m) as [r|] eqn:Hr'.
+  2:{ destruct (stored cl) eqn:Hst; [eapply AR_phase1; eauto; congruence|eapply AR_noconf; eauto|eapply AR_phase1; eauto; congruence]. }
+  destruct (pending c) as [ch|] eqn:Hp; [|eapply AR_nochal; eauto].
+  destruct (stored cl) as [sec| |] eqn:Hst; cbn [secret_of].
+  + destruct (N.eqb_spec r (hmac sec ch)) as [->|Hne]; [eapply AR_ok; eauto|eapply AR_bad; eauto].
+    intros sec' E. rewrite Hst in E. injection E as <-. exact Hne.
+  + eapply AR_bad; eauto. intros sec' E. rewrite Hst in E. discriminate.
+  + eapply AR_bad; eauto. intros sec' E. rewrite Hst in E. discriminate.
+Qed.
+
+Lemma auth_result_frame chk keep s c a m s1 c1 ar : auth_result chk keep s c a m s1 c1 ar ->
   conns s1 = conns s /\ index s1 = index s.
 Proof.
   intro H; destruct H; cbn; try (split; reflexivity);
@@ -99,7 +93,7 @@ Proof.
     destruct (rf_frame s a) as (Hc & Hi & _); split; assumption.
 Qed.
 
-Lemma auth_result_nonsuccess keep s c a m s1 c1 ar : auth_result keep s c a m s1 c1 ar -> is_success ar = false ->
+Lemma auth_result_nonsuccess chk keep s c a m s1 c1 ar : auth_result chk keep s c a m s1 c1 ar -> is_success ar = false ->
   authed c1 = authed c /\ ccid c1 = ccid c /\ clients s1 = clients s /\ next_id s1 = next_id s.
 Proof.
   intros H Hs; destruct H; cbn in *; try discriminate; repeat split; try reflexivity;
@@ -194,13 +188,13 @@ Definition install (s3 : srv) (k : N) (cn : conn) (c1 : cc) : srv :=
 Definition install_cond (v : variant) (h : hs) (c1 : cc) (ar : aresp) : bool :=
   negb (h_tunnel h) && authed c1 && (0 <? ccid c1) && (negb (v_success_gate v) || is_success ar).
 
-Lemma handle_shape v s k h cn :
+Lemma handle_shape chk v s k h cn :
   conns s k = Some cn ->
   let c0 := match c_cc cn with Some c => c | None => new_cc end in
-  forall s1 c1 ar, auth (v_first_keeps v) s c0 (c_addr cn) h = (s1, c1, ar) ->
+  forall s1 c1 ar, auth chk (v_first_keeps v) s c0 (c_addr cn) h = (s1, c1, ar) ->
   let s3 := post_auth s1 k cn c1 in
-  fst (handle v s k (Some h)) = s3 \/
-  (fst (handle v s k (Some h)) = install s3 k cn c1 /\ install_cond v h c1 ar = true /\ c_open cn = true /\ ar <> AFail).
+  fst (handle chk v s k (Some h)) = s3 \/
+  (fst (handle chk v s k (Some h)) = install s3 k cn c1 /\ install_cond v h c1 ar = true /\ c_open cn = true /\ ar <> AFail).
 Proof.
   intros Hc c0 s1 c1 ar Ha s3. unfold Auth.handle. rewrite Hc. fold c0. rewrite Ha.
   fold (post_auth s1 k cn c1). fold s3. fold (install_cond v h c1 ar).
@@ -310,35 +304,35 @@ Proof.
   eapply authed_as_ext; [|exact Ha]. rewrite Hc. reflexivity.
 Qed.
 
-Lemma auth_result_fresh keep s c a m s1 c1 ar : auth_result keep s c a m s1 c1 ar -> fresh s -> fresh s1.
+Lemma auth_result_fresh chk keep s c a m s1 c1 ar : auth_result chk keep s c a m s1 c1 ar -> fresh s -> fresh s1.
 Proof.
   intros H Hf; destruct H; try assumption;
     try (intros x Hx; destruct (rf_frame s a) as (_ & _ & Hcl & Hn & _); rewrite Hcl; apply Hf; rewrite Hn in Hx; assumption).
   - intros x Hx. unfold first_state in *. destruct keep; cbn in *; rewrite upd_other by lia; apply Hf; lia.
 Qed.
 
-Lemma handle_post_auth_inv keep s k cn h s1 c1 ar :
+Lemma handle_post_auth_inv chk keep s k cn h s1 c1 ar :
   idx_inv s -> conns s k = Some cn ->
-  auth_result keep s (match c_cc cn with Some c => c | None => new_cc end) (c_addr cn) h s1 c1 ar ->
+  auth_result chk keep s (match c_cc cn with Some c => c | None => new_cc end) (c_addr cn) h s1 c1 ar ->
   idx_inv (post_auth s1 k cn c1).
 Proof.
-  intros Hinv Hc Har. destruct (auth_result_frame _ _ _ _ _ _ _ _ Har) as [Hcs His].
+  intros Hinv Hc Har. destruct (auth_result_frame _ _ _ _ _ _ _ _ _ Har) as [Hcs His].
   apply post_auth_idx_inv.
   - intros x j Hx Hn. rewrite His in Hx. destruct (Hinv _ _ Hx) as [Ha Hp]. split; [|assumption].
     eapply authed_as_ext; [|exact Ha]. rewrite Hcs. reflexivity.
   - intros x Hx. rewrite His in Hx. apply (Hinv _ _ Hx).
 Qed.
 
-Lemma handle_wf v s k m : wf s -> wf (fst (handle v s k m)).
+Lemma handle_wf chk v s k m : wf s -> wf (fst (handle chk v s k m)).
 Proof.
   intros [Hf Hinv]. destruct m as [h|]; [|exact (conj Hf Hinv)].
   destruct (conns s k) as [cn|] eqn:Hc; [|unfold Auth.handle; rewrite Hc; exact (conj Hf Hinv)].
   set (c0 := match c_cc cn with Some c => c | None => new_cc end).
-  destruct (auth (v_first_keeps v) s c0 (c_addr cn) h) as [[s1 c1] ar] eqn:Ha.
-  pose proof (auth_cases (v_first_keeps v) s c0 (c_addr cn) h) as Har. rewrite Ha in Har.
-  pose proof (handle_post_auth_inv _ _ _ _ _ _ _ _ Hinv Hc Har) as H3.
-  pose proof (auth_result_fresh _ _ _ _ _ _ _ _ Har Hf) as Hf1.
-  destruct (handle_shape v s k h cn Hc s1 c1 ar Ha) as [He|(He & Hcond & _ & _)]; rewrite He.
+  destruct (auth chk (v_first_keeps v) s c0 (c_addr cn) h) as [[s1 c1] ar] eqn:Ha.
+  pose proof (auth_cases chk (v_first_keeps v) s c0 (c_addr cn) h) as Har. rewrite Ha in Har.
+  pose proof (handle_post_auth_inv _ _ _ _ _ _ _ _ _ Hinv Hc Har) as H3.
+  pose proof (auth_result_fresh _ _ _ _ _ _ _ _ _ Har Hf) as Hf1.
+  destruct (handle_shape chk v s k h cn Hc s1 c1 ar Ha) as [He|(He & Hcond & _ & _)]; rewrite He.
   - split; [exact Hf1|exact H3].
   - unfold install_cond in Hcond.
     apply andb_prop in Hcond as [Hcond _]. apply andb_prop in Hcond as [Hcond Hpos].
@@ -410,6 +404,8 @@ Proof.
     + eapply idx_inv_ext; [| |exact Hinv]; reflexivity.
   - exact (conj Hf Hinv).
   - exact (conj Hf Hinv).
+  - split; [exact Hf|]. eapply idx_inv_ext; [| |exact Hinv]; reflexivity.
+  - split; [exact Hf|]. eapply idx_inv_ext; [| |exact Hinv]; reflexivity.
 Qed.
 
 Lemma init_wf : wf init.
@@ -430,39 +426,45 @@ Proof. intro H. destruct (run_wf v es init init_wf) as [_ Hinv]. apply (Hinv _ _
 (* (1) auth_only_if_proved                                                                     *)
 (* ------------------------------------------------------------------------------------------ *)
 
-(* what counts as a proof of identity x by message m on connection k in state s *)
-Definition proof_step (s : srv) (k : N) (m : hs) (x : N) : Prop :=
+(* the gate checks (steps 1-3 of HandleHandshake) let message m on connection k through *)
+Definition gate_ok (s : srv) (k : N) (m : hs) : Prop :=
   exists cn, conns s k = Some cn /\ blocked s (c_addr cn) = false /\ banned s (c_addr cn) = false /\
-  ( (h_cid m = 0 /\ h_new m = true /\ rl_deny s = false /\ x = next_id s /\ clients s x = None)
-    \/ (h_cid m = x /\ exists cl sec ch, clients s x = Some cl /\ expired cl = false /\ stored cl = CKey sec /\
-        pending_of s k = Some ch /\ h_resp m = Some (hmac sec ch)) ).
+             (h_cid m = 0 -> rl_deny s = false).
+(* what counts as a proof of identity x by message m on connection k in state s: a brand-new identity, or the keyed response *)
+Definition proof_core (s : srv) (k : N) (m : hs) (x : N) : Prop :=
+  (h_cid m = 0 /\ h_new m = true /\ x = next_id s /\ clients s x = None)
+  \/ (h_cid m = x /\ exists cl sec ch, clients s x = Some cl /\ expired cl = false /\ stored cl = CKey sec /\
+        pending_of s k = Some ch /\ h_resp m = Some (hmac sec ch)).
+Definition proof_step (s : srv) (k : N) (m : hs) (x : N) : Prop := gate_ok s k m /\ proof_core s k m x.
 
-Lemma handle_authed_justified v s k0 m k x :
-  wf s -> authed_as (fst (handle v s k0 m)) k x ->
-  authed_as s k x \/ (k = k0 /\ exists h, m = Some h /\ proof_step s k h x).
+Lemma handle_authed_justified chk v s k0 m k x :
+  wf s -> authed_as (fst (handle chk v s k0 m)) k x ->
+  authed_as s k x \/ (k = k0 /\ exists h, m = Some h /\ proof_core s k h x /\ (chk = true -> gate_ok s k h)).
 Proof.
   intros [Hf Hinv] Ha. destruct m as [h|]; [|left; exact Ha].
   destruct (conns s k0) as [cn|] eqn:Hc; [|unfold Auth.handle in Ha; rewrite Hc in Ha; left; exact Ha].
   set (c0 := match c_cc cn with Some c => c | None => new_cc end).
-  destruct (auth (v_first_keeps v) s c0 (c_addr cn) h) as [[s1 c1] ar] eqn:Hau.
-  pose proof (auth_cases (v_first_keeps v) s c0 (c_addr cn) h) as Har. rewrite Hau in Har.
-  destruct (auth_result_frame _ _ _ _ _ _ _ _ Har) as [Hcs His].
+  destruct (auth chk (v_first_keeps v) s c0 (c_addr cn) h) as [[s1 c1] ar] eqn:Hau.
+  pose proof (auth_cases chk (v_first_keeps v) s c0 (c_addr cn) h) as Har. rewrite Hau in Har.
+  destruct (auth_result_frame _ _ _ _ _ _ _ _ _ Har) as [Hcs His].
   assert (Ha3 : authed_as (post_auth s1 k0 cn c1) k x).
-  { destruct (handle_shape v s k0 h cn Hc s1 c1 ar Hau) as [He|(He & Hcond & _ & _)]; rewrite He in Ha; [exact Ha|].
+  { destruct (handle_shape chk v s k0 h cn Hc s1 c1 ar Hau) as [He|(He & Hcond & _ & _)]; rewrite He in Ha; [exact Ha|].
     unfold install_cond in Hcond.
     apply andb_prop in Hcond as [Hcond _]. apply andb_prop in Hcond as [Hcond _]. apply andb_prop in Hcond as [_ Hauthed].
     eapply install_authed; [exact Hauthed| |exact Ha]. rewrite post_auth_conns, N.eqb_refl. reflexivity. }
   destruct (N.eq_dec k k0) as [->|Hn].
   - apply post_auth_authed_self in Ha3 as [Hau1 Hid].
     destruct (is_success ar) eqn:Hs.
-    + right. split; [reflexivity|]. exists h. split; [reflexivity|]. exists cn. split; [exact Hc|].
-      destruct Har; cbn in Hs; try discriminate.
-      * split; [assumption|]. split; [assumption|]. left. cbn in Hid. subst x.
-        repeat split; try assumption. apply Hf. lia.
-      * split; [assumption|]. split; [assumption|]. right. cbn in Hid. split; [exact Hid|]. subst x.
-        exists cl, sec, ch. split; [assumption|]. split; [assumption|]. split; [assumption|]. split; [|assumption].
-        unfold pending_of. rewrite Hc. unfold c0 in *. destruct (c_cc cn) as [c|]; [assumption|discriminate].
-    + left. destruct (auth_result_nonsuccess _ _ _ _ _ _ _ _ Har Hs) as (E1 & E2 & _).
+    + right. split; [reflexivity|]. exists h. split; [reflexivity|].
+      assert (Hgate : gate_fail chk s (c_addr cn) h = false) by (destruct Har; cbn in Hs; try discriminate; assumption).
+      split.
+      * destruct Har; cbn in Hs; try discriminate.
+        -- left. cbn in Hid. subst x. repeat split; try assumption. apply Hf. lia.
+        -- right. cbn in Hid. split; [exact Hid|]. subst x.
+           exists cl, sec, ch. split; [assumption|]. split; [assumption|]. split; [assumption|]. split; [|assumption].
+           unfold pending_of. rewrite Hc. unfold c0 in *. destruct (c_cc cn) as [c|]; [assumption|discriminate].
+      * intros ->. destruct (gate_fail_false _ _ _ Hgate) as (G1 & G2 & G3). exists cn. auto.
+    + left. destruct (auth_result_nonsuccess _ _ _ _ _ _ _ _ _ Har Hs) as (E1 & E2 & _).
       rewrite E1 in Hau1. rewrite E2 in Hid. unfold c0 in *.
       destruct (c_cc cn) as [c|] eqn:Hcc; [|discriminate]. exists cn, c. auto.
   - left. apply post_auth_authed_other in Ha3; [|assumption].
@@ -480,11 +482,12 @@ Qed.
 
 Theorem auth_step_justified v s e k x :
   wf s -> authed_as (fst (step v s e)) k x ->
-  authed_as s k x \/ exists m, e = EMsg k (Some m) /\ proof_step s k m x.
+  authed_as s k x \/ (exists m, e = EMsg k (Some m) /\ proof_step s k m x)
+                  \/ (exists m, e = EBody k m /\ proof_core s k m x).
 Proof.
   intros Hw Ha. destruct e; cbn [Auth.step fst] in Ha; try (left; exact Ha).
-  - destruct (handle_authed_justified _ _ _ _ _ _ Hw Ha) as [H|(-> & h & -> & H)]; [left; exact H|].
-    right. exists h. auto.
+  - destruct (handle_authed_justified _ _ _ _ _ _ _ Hw Ha) as [H|(-> & h & -> & H & G)]; [left; exact H|].
+    right. left. exists h. split; [reflexivity|]. split; [apply G; reflexivity|exact H].
   - (* ERestart *) exfalso. destruct Ha as (cn & c & H1 & _). destruct lapsed; discriminate.
   - (* EExpire *) left. destruct (clients s x0); exact Ha.
   - (* EDelAnon *) left. destruct (v_anon_delete v); exact Ha.
@@ -496,20 +499,33 @@ Proof.
     + rewrite upd_same in H1. injection H1 as <-. destruct H as [H _]. discriminate.
     + rewrite upd_other in H1 by assumption. apply (close_authed s k0). exists cn, c. auto.
   - (* ESetRecord *) left. destruct (clients s x0); exact Ha.
+  - (* EBody *) destruct (handle_authed_justified _ _ _ _ _ _ _ Hw Ha) as [H|(-> & h & Hm & H & _)]; [left; exact H|].
+    injection Hm as <-. right. right. exists m. auto.
 Qed.
 
-(* history form: every authenticated connection has a proof step on that same connection in its history *)
+(* history form: every authenticated connection has a proof step on that same connection in its history; for a handshake
+   that overlapped with others (EBody) the gate checks were passed when it began, the credential proof holds when it completes *)
 Theorem auth_only_if_proved v es k x :
   authed_as (run v init es) k x ->
-  exists pre m post, es = pre ++ EMsg k (Some m) :: post /\ proof_step (run v init pre) k m x.
+  exists pre m post,
+    (es = pre ++ EMsg k (Some m) :: post /\ proof_step (run v init pre) k m x) \/
+    (es = pre ++ EBody k m :: post /\ proof_core (run v init pre) k m x).
 Proof.
   induction es as [|e es IH] using rev_ind; intro Ha.
   - destruct Ha as (cn & c & H1 & _). discriminate.
   - rewrite run_app in Ha. cbn [Auth.run] in Ha.
-    destruct (auth_step_justified v _ e k x (run_wf v es init init_wf) Ha) as [Hold|(m & -> & Hp)].
-    + destruct (IH Hold) as (pre & m & post & -> & Hp). exists pre, m, (post ++ [e]).
-      split; [|exact Hp]. rewrite <- app_assoc. reflexivity.
-    + exists es, m, []. split; [reflexivity|exact Hp].
+    destruct (auth_step_justified v _ e k x (run_wf v es init init_wf) Ha) as [Hold|[(m & -> & Hp)|(m & -> & Hp)]].
+    + destruct (IH Hold) as (pre & m & post & [[-> Hp]|[-> Hp]]); exists pre, m, (post ++ [e]).
+      * left. split; [|exact Hp]. rewrite <- app_assoc. reflexivity.
+      * right. split; [|exact Hp]. rewrite <- app_assoc. reflexivity.
+    + exists es, m, []. left. split; [reflexivity|exact Hp].
+    + exists es, m, []. right. split; [reflexivity|exact Hp].
+Qed.
+
+Lemma proof_core_known s k m x : proof_core s k m x -> x < next_id s ->
+  exists cl sec, clients s x = Some cl /\ expired cl = false /\ stored cl = CKey sec.
+Proof.
+  intros [(_ & _ & -> & _)|(_ & cl & sec & ch & Hc & He & Hst & _)] Hlt; [lia|]. exists cl, sec. auto.
 Qed.
 
 (* unknown or expired clients are never (newly) authenticated *)
@@ -518,9 +534,11 @@ Corollary unknown_or_expired_never_authenticated v s e k x :
   x < next_id s ->
   authed_as (fst (step v s e)) k x -> authed_as s k x.
 Proof.
-  intros Hw Hx Hlt Ha. destruct (auth_step_justified v s e k x Hw Ha) as [H|(m & _ & cn & _ & _ & _ & Hp)]; [exact H|].
-  exfalso. destruct Hp as [(_ & _ & _ & -> & _)|(_ & cl & sec & ch & Hc & He & _)]; [lia|].
-  destruct Hx as [Hx|(cl' & Hx & He')]; rewrite Hc in Hx; [discriminate|]. injection Hx as <-. congruence.
+  intros Hw Hx Hlt Ha.
+  assert (Hcore : forall m, proof_core s k m x -> False).
+  { intros m Hp. destruct (proof_core_known _ _ _ _ Hp Hlt) as (cl & sec & Hc & He & _).
+    destruct Hx as [Hx|(cl' & Hx & He')]; rewrite Hc in Hx; [discriminate|]. injection Hx as <-. congruence. }
+  destruct (auth_step_justified v s e k x Hw Ha) as [H|[(m & _ & _ & Hp)|(m & _ & Hp)]]; [exact H| |]; exfalso; eauto.
 Qed.
 
 (* a client whose stored credential yields no usable secret (empty, not base64, undecryptable, sealed under another
@@ -529,10 +547,12 @@ Corollary no_usable_secret_never_authenticated v s e k x cl :
   wf s -> clients s x = Some cl -> secret_of (stored cl) = None ->
   authed_as (fst (step v s e)) k x -> authed_as s k x.
 Proof.
-  intros Hw Hc Hn Ha. destruct (auth_step_justified v s e k x Hw Ha) as [H|(m & _ & cn & _ & _ & _ & Hp)]; [exact H|].
-  exfalso. destruct Hp as [(_ & _ & _ & _ & Hnone)|(_ & cl' & sec & ch & Hc' & _ & Hst & _)].
-  - rewrite Hc in Hnone. discriminate.
-  - rewrite Hc in Hc'. injection Hc' as <-. rewrite Hst in Hn. discriminate.
+  intros Hw Hc Hn Ha.
+  assert (Hcore : forall m, proof_core s k m x -> False).
+  { intros m [(_ & _ & _ & Hnone)|(_ & cl' & sec & ch & Hc' & _ & Hst & _)].
+    - rewrite Hc in Hnone. discriminate.
+    - rewrite Hc in Hc'. injection Hc' as <-. rewrite Hst in Hn. discriminate. }
+  destruct (auth_step_justified v s e k x Hw Ha) as [H|[(m & _ & _ & Hp)|(m & _ & Hp)]]; [exact H| |]; exfalso; eauto.
 Qed.
 
 (* ------------------------------------------------------------------------------------------ *)
@@ -549,29 +569,29 @@ Definition inert (s s' : srv) : Prop :=
 Lemma inert_refl s : inert s s.
 Proof. repeat split; auto. Qed.
 
-Lemma handle_out_auth v s k h cn :
+Lemma handle_out_auth chk v s k h cn :
   conns s k = Some cn ->
-  forall s1 c1 ar, auth (v_first_keeps v) s (match c_cc cn with Some c => c | None => new_cc end) (c_addr cn) h = (s1, c1, ar) ->
-  o_auth (snd (handle v s k (Some h))) = Some ar.
+  forall s1 c1 ar, auth chk (v_first_keeps v) s (match c_cc cn with Some c => c | None => new_cc end) (c_addr cn) h = (s1, c1, ar) ->
+  o_auth (snd (handle chk v s k (Some h))) = Some ar.
 Proof.
   intros Hc s1 c1 ar Ha. unfold Auth.handle. rewrite Hc, Ha.
   destruct ar; cbn; try reflexivity; destruct (c_open cn); cbn; try reflexivity;
     match goal with |- context [if ?b then _ else _] => destruct b end; reflexivity.
 Qed.
 
-Theorem failure_is_inert s k m :
-  wf s -> not_success (snd (handle current_variant s k m)) ->
-  inert s (fst (handle current_variant s k m)).
+Theorem failure_is_inert chk s k m :
+  wf s -> not_success (snd (handle chk current_variant s k m)) ->
+  inert s (fst (handle chk current_variant s k m)).
 Proof.
   intros [Hf Hinv] Hns. destruct m as [h|]; [|apply inert_refl].
   destruct (conns s k) as [cn|] eqn:Hc; [|unfold Auth.handle; rewrite Hc; apply inert_refl].
   set (c0 := match c_cc cn with Some c => c | None => new_cc end).
-  destruct (auth (v_first_keeps current_variant) s c0 (c_addr cn) h) as [[s1 c1] ar] eqn:Hau.
-  pose proof (auth_cases (v_first_keeps current_variant) s c0 (c_addr cn) h) as Har. rewrite Hau in Har.
-  unfold not_success in Hns. rewrite (handle_out_auth _ _ _ _ _ Hc _ _ _ Hau) in Hns.
-  destruct (auth_result_frame _ _ _ _ _ _ _ _ Har) as [Hcs His].
-  destruct (auth_result_nonsuccess _ _ _ _ _ _ _ _ Har Hns) as (E1 & E2 & E3 & _).
-  destruct (handle_shape current_variant s k h cn Hc s1 c1 ar Hau) as [He|(_ & Hcond & _ & _)].
+  destruct (auth chk (v_first_keeps current_variant) s c0 (c_addr cn) h) as [[s1 c1] ar] eqn:Hau.
+  pose proof (auth_cases chk (v_first_keeps current_variant) s c0 (c_addr cn) h) as Har. rewrite Hau in Har.
+  unfold not_success in Hns. rewrite (handle_out_auth _ _ _ _ _ _ Hc _ _ _ Hau) in Hns.
+  destruct (auth_result_frame _ _ _ _ _ _ _ _ _ Har) as [Hcs His].
+  destruct (auth_result_nonsuccess _ _ _ _ _ _ _ _ _ Har Hns) as (E1 & E2 & E3 & _).
+  destruct (handle_shape chk current_variant s k h cn Hc s1 c1 ar Hau) as [He|(_ & Hcond & _ & _)].
   2:{ unfold install_cond in Hcond. cbn [v_success_gate current_variant negb orb] in Hcond.
       rewrite Hns in Hcond. rewrite andb_false_r in Hcond. discriminate. }
   rewrite He.
@@ -592,15 +612,15 @@ Qed.
 
 Theorem gated v s k h cn :
   wf s -> conns s k = Some cn -> (blocked s (c_addr cn) = true \/ banned s (c_addr cn) = true) ->
-  o_auth (snd (handle v s k (Some h))) = Some AFail /\ inert s (fst (handle v s k (Some h))) /\
-  pending_of (fst (handle v s k (Some h))) k = pending_of s k.
+  o_auth (snd (handle true v s k (Some h))) = Some AFail /\ inert s (fst (handle true v s k (Some h))) /\
+  pending_of (fst (handle true v s k (Some h))) k = pending_of s k.
 Proof.
   intros [Hf Hinv] Hc Hg.
   set (c0 := match c_cc cn with Some c => c | None => new_cc end).
-  assert (Hau : auth (v_first_keeps v) s c0 (c_addr cn) h = (s, c0, AFail)).
-  { unfold Auth.auth. destruct Hg as [Hg|Hg]; rewrite Hg; [reflexivity|]. destruct (blocked s (c_addr cn)); reflexivity. }
-  split; [apply (handle_out_auth v s k h cn Hc _ _ _ Hau)|].
-  destruct (handle_shape v s k h cn Hc s c0 AFail Hau) as [He|(_ & _ & _ & Hne)]; [|contradiction].
+  assert (Hau : auth true (v_first_keeps v) s c0 (c_addr cn) h = (s, c0, AFail)).
+  { unfold Auth.auth, gate_fail. destruct Hg as [Hg|Hg]; rewrite Hg; [reflexivity|]. rewrite orb_true_r. reflexivity. }
+  split; [apply (handle_out_auth true v s k h cn Hc _ _ _ Hau)|].
+  destruct (handle_shape true v s k h cn Hc s c0 AFail Hau) as [He|(_ & _ & _ & Hne)]; [|contradiction].
   rewrite He.
   assert (Hself : forall x, authed_as (post_auth s k cn c0) k x <-> authed_as s k x).
   { intro x. rewrite post_auth_authed_self. unfold c0. split.
@@ -629,13 +649,13 @@ Definition same_gate (s s' : srv) : Prop :=
   (forall x, match clients s x, clients s' x with
              | Some c, Some c' => same_rec c c' | None, None => True | _, _ => False end) /\
   next_id s = next_id s' /\ next_secret s = next_secret s' /\ next_nonce s = next_nonce s' /\
-  (forall a, banned s a = banned s' a) /\ (forall a, black s a = black s' a) /\
+  (forall a, banned s a = banned s' a) /\ (forall a, black s a = black s' a) /\ (forall a, white s a = white s' a) /\
   (forall a, fails s a = fails s' a) /\ rl_deny s = rl_deny s' /\
   (forall k, conns s k = conns s' k) /\ (forall x, index s x = index s' x).
 
 Lemma same_gate_record_failure s s' a : same_gate s s' -> same_gate (record_failure s a) (record_failure s' a).
 Proof.
-  intros (Hc & Hi & Hs & Hn & Hb & Hbl & Hf & Hr & Hcn & Hix). unfold Auth.record_failure. rewrite <- (Hf a).
+  intros (Hc & Hi & Hs & Hn & Hb & Hbl & Hwl & Hf & Hr & Hcn & Hix). unfold Auth.record_failure. rewrite <- (Hf a).
   destruct ((pb <=? fails s a + 1) || (mf <=? fails s a + 1));
     (split; [exact Hc|]); cbn; repeat split; try assumption;
     try (intro a0; unfold upd; destruct (a0 =? a); auto).
@@ -643,34 +663,34 @@ Qed.
 
 Lemma same_gate_clear_fails s s' a : same_gate s s' -> same_gate (clear_fails s a) (clear_fails s' a).
 Proof.
-  intros (Hc & Hi & Hs & Hn & Hb & Hbl & Hf & Hr & Hcn & Hix). unfold clear_fails.
+  intros (Hc & Hi & Hs & Hn & Hb & Hbl & Hwl & Hf & Hr & Hcn & Hix). unfold clear_fails.
   (split; [exact Hc|]); cbn; repeat split; try assumption. intro a0; unfold upd; destruct (a0 =? a); auto.
 Qed.
 
 Lemma same_gate_bump s s' : same_gate s s' -> same_gate (bump_nonce s) (bump_nonce s').
 Proof.
-  intros (Hc & Hi & Hs & Hn & Hb & Hbl & Hf & Hr & Hcn & Hix).
+  intros (Hc & Hi & Hs & Hn & Hb & Hbl & Hwl & Hf & Hr & Hcn & Hix).
   (split; [exact Hc|]); cbn; repeat split; try assumption. rewrite Hn. reflexivity.
 Qed.
 
 Lemma same_gate_register s s' : same_gate s s' -> same_gate (register s) (register s').
 Proof.
-  intros (Hc & Hi & Hs & Hn & Hb & Hbl & Hf & Hr & Hcn & Hix). unfold same_gate, register; cbn. rewrite <- Hi, <- Hs.
+  intros (Hc & Hi & Hs & Hn & Hb & Hbl & Hwl & Hf & Hr & Hcn & Hix). unfold same_gate, register; cbn. rewrite <- Hi, <- Hs.
   split; [|repeat split; assumption].
   intro x. unfold upd. destruct (x =? next_id s); [split; reflexivity|apply Hc].
 Qed.
 
 (* whatever the non-gate fields are: same response, same ControlConnection, and the states stay related *)
-Theorem auth_ignores_meta keep s s' c a m : same_gate s s' ->
-  let '(s1, c1, r) := auth keep s c a m in
-  let '(s1', c1', r') := auth keep s' c a m in
+Theorem auth_ignores_meta chk keep s s' c a m : same_gate s s' ->
+  let '(s1, c1, r) := auth chk keep s c a m in
+  let '(s1', c1', r') := auth chk keep s' c a m in
   c1 = c1' /\ r = r' /\ same_gate s1 s1'.
 Proof.
-  intro H. pose proof H as (Hc & Hi & Hs & Hn & Hb & Hbl & Hf & Hr & Hcn & Hix).
-  unfold Auth.auth, blocked. rewrite <- (Hbl (k_ip a)), <- (Hbl (k_cidr a)), <- (Hb a), <- Hr, <- Hi, <- Hn.
-  destruct (black s (k_ip a) || black s (k_cidr a)); [auto|].
-  destruct (banned s a); [auto|].
-  destruct ((h_cid m =? 0) && rl_deny s); [auto|].
+  intro H. pose proof H as (Hc & Hi & Hs & Hn & Hb & Hbl & Hwl & Hf & Hr & Hcn & Hix).
+  unfold Auth.auth, gate_fail, blocked, listed.
+  rewrite <- (Hbl (k_ip a)), <- (Hbl (k_cidr a)), <- (Hwl (k_ip a)), <- (Hwl (k_cidr a)), <- (Hb a), <- Hr, <- Hi, <- Hn.
+  destruct (chk && (negb (white s (k_ip a) || white s (k_cidr a)) && (black s (k_ip a) || black s (k_cidr a)) || banned s a
+                    || (h_cid m =? 0) && rl_deny s)); [auto|].
   destruct ((h_cid m =? 0) && h_new m).
   { split; [reflexivity|]. split; [reflexivity|]. unfold first_state.
     destruct keep; [apply same_gate_register; exact H|apply same_gate_clear_fails; apply same_gate_register; exact H]. }
@@ -723,8 +743,8 @@ Definition reinstall_history : list ev :=
 Lemma pinned_nonsuccess_reinstall_refuted :
   exists es k m,
     let s := run toy_hmac 5 20 pinned_variant init es in
-    not_success (snd (handle toy_hmac 5 20 pinned_variant s k m)) /\
-    index s 1 = Some 1 /\ index (fst (handle toy_hmac 5 20 pinned_variant s k m)) 1 = Some 2.
+    not_success (snd (handle toy_hmac 5 20 true pinned_variant s k m)) /\
+    index s 1 = Some 1 /\ index (fst (handle toy_hmac 5 20 true pinned_variant s k m)) 1 = Some 2.
 Proof.
   exists reinstall_history, 2, (p1 2 false). cbv zeta. split; [|split]; vm_compute; reflexivity.
 Qed.
@@ -753,7 +773,7 @@ Lemma premises_satisfiable :
   wf s /\ authed_as s 1 1 /\ index s 1 = Some 1 /\
   proof_step toy_hmac (run toy_hmac 5 20 current_variant init (firstn 5 es)) 1
              {| h_cid := 1; h_new := false; h_resp := Some (toy_hmac 1 1); h_tunnel := false |} 1 /\
-  not_success (snd (handle toy_hmac 5 20 current_variant s 2 (p2 1 7 false))).
+  not_success (snd (handle toy_hmac 5 20 true current_variant s 2 (p2 1 7 false))).
 Proof.
   cbv zeta. split; [apply run_wf; apply init_wf|].
   split.
@@ -761,10 +781,11 @@ Proof.
     split; [vm_compute; reflexivity|]. split; vm_compute; reflexivity. }
   split; [vm_compute; reflexivity|].
   split.
-  { unfold proof_step. eexists. split; [vm_compute; reflexivity|].
-    split; [vm_compute; reflexivity|]. split; [vm_compute; reflexivity|]. right.
-    split; [reflexivity|]. eexists. eexists. eexists. split; [vm_compute; reflexivity|].
-    split; [vm_compute; reflexivity|]. split; [vm_compute; reflexivity|]. split; vm_compute; reflexivity. }
+  { unfold proof_step, gate_ok, proof_core. split.
+    - eexists. split; [vm_compute; reflexivity|].
+      split; [vm_compute; reflexivity|]. split; [vm_compute; reflexivity|]. intro E; discriminate E.
+    - right. split; [reflexivity|]. eexists. eexists. eexists. split; [vm_compute; reflexivity|].
+      split; [vm_compute; reflexivity|]. split; [vm_compute; reflexivity|]. split; vm_compute; reflexivity. }
   vm_compute. reflexivity.
 Qed.
 
@@ -773,21 +794,97 @@ Proof. apply N.eqb_neq. unfold k_cidr, k_ip. lia. Qed.
 Lemma k_ip_ne a a' : a <> a' -> (k_ip a =? k_ip a') = false.
 Proof. intro H. apply N.eqb_neq. unfold k_ip. lia. Qed.
 
-(* a restart keeps the blacklist gate (and the client table) and drops every connection; with a lapsed short-lived
-   entry for a', only the exact-IP entry of a' is gone — CIDR entries and every other address are untouched *)
-Lemma restart_keeps_blacklist hmac mf pb v s lapsed a :
+(* a restart is invisible for the IP lists: the black- and whitelist (hence the gate decision for every address)
+   after the restart are those before it, whatever sequence of edits produced them; it drops every connection and
+   registry entry and keeps the client table.  With a lapsed short-lived entry for a', only the exact-IP blacklist entry
+   of a' is gone; the whitelist, CIDR entries and every other address are untouched. *)
+Lemma restart_keeps_lists hmac mf pb v s lapsed :
   let s' := fst (step hmac mf pb v s (ERestart lapsed)) in
-  (lapsed = None -> blocked s' a = blocked s a) /\
-  (black s (k_cidr a) = true -> blocked s' a = true) /\
-  (forall a', lapsed = Some a' -> a <> a' -> blocked s' a = blocked s a) /\
+  (lapsed = None -> black s' = black s /\ forall a, blocked s' a = blocked s a) /\
+  white s' = white s /\
+  (forall a a', lapsed = Some a' -> a <> a' -> blocked s' a = blocked s a) /\
+  (forall a a', lapsed = Some a' -> black s (k_cidr a) = true -> blocked s' a = blocked s a) /\
   (forall k, conns s' k = None) /\ (forall x, index s' x = None) /\ clients s' = clients s.
 Proof.
-  cbv zeta. split; [intros ->; reflexivity|]. split.
-  { intro H. destruct lapsed as [a'|]; unfold blocked; cbn [Auth.step fst restart black set_black]; unfold upd.
-    - rewrite (k_cidr_ne a a'), H. apply orb_true_r.
-    - rewrite H. apply orb_true_r. }
-  split.
-  { intros a' -> Hne. unfold blocked; cbn [Auth.step fst restart black set_black]; unfold upd.
+  cbv zeta. split; [intros ->; split; reflexivity|]. split; [destruct lapsed; reflexivity|]. split.
+  { intros a a' -> Hne. unfold blocked, listed; cbn [Auth.step fst restart black white set_black]; unfold upd.
     rewrite (k_cidr_ne a a'), (k_ip_ne a a' Hne). reflexivity. }
+  split.
+  { intros a a' -> H. unfold blocked, listed; cbn [Auth.step fst restart black white set_black]; unfold upd.
+    rewrite (k_cidr_ne a a'), H. rewrite !orb_true_r. reflexivity. }
   destruct lapsed; cbn; auto.
+Qed.
+
+(* ... after ANY history: appending a restart changes neither list *)
+Lemma restart_invisible_for_lists hmac mf pb v s es :
+  let s1 := run hmac mf pb v s es in
+  let s2 := run hmac mf pb v s (es ++ [ERestart None]) in
+  black s2 = black s1 /\ white s2 = white s1 /\ forall a, blocked s2 a = blocked s1 a.
+Proof.
+  cbv zeta. rewrite run_app. cbn. repeat split; reflexivity.
+Qed.
+
+(* a ban in force stays in force until UnbanIP or a restart: no other event — in particular no success of an
+   overlapping handshake from the same address (RecordSuccess), no failure, no lapse, no asynchronous removal — lifts it *)
+Definition lifts_ban (a : N) (e : ev) : bool :=
+  match e with EUnban a' => a' =? a | ERestart _ => true | _ => false end.
+
+Lemma rf_banned_mono mf pb s a a' : banned s a = true -> banned (record_failure mf pb s a') a = true.
+Proof.
+  intro H. unfold record_failure.
+  destruct ((pb <=? fails s a' + 1) || (mf <=? fails s a' + 1)); cbn; [|exact H].
+  unfold upd. destruct (a =? a'); [reflexivity|exact H].
+Qed.
+
+Lemma auth_banned_mono hmac mf pb chk keep s c a' m a :
+  banned s a = true -> banned (fst (fst (auth hmac mf pb chk keep s c a' m))) a = true.
+Proof.
+  intro H. pose proof (auth_cases hmac mf pb chk keep s c a' m) as Har.
+  destruct (auth hmac mf pb chk keep s c a' m) as [[s1 c1] ar]. cbn.
+  destruct Har; try exact H; try (apply rf_banned_mono; exact H).
+  unfold first_state. destruct keep; exact H.
+Qed.
+
+Lemma evict_banned s k : banned (evict s k) = banned s.
+Proof. unfold evict. destruct (conns s k) as [cn|]; [|reflexivity]. destruct (c_cc cn); reflexivity. Qed.
+
+Lemma handle_banned_mono hmac mf pb chk v s k m a :
+  banned s a = true -> banned (fst (handle hmac mf pb chk v s k m)) a = true.
+Proof.
+  intro H. destruct m as [h|]; [|exact H].
+  destruct (conns s k) as [cn|] eqn:Hc; [|unfold handle; rewrite Hc; exact H].
+  pose proof (auth_banned_mono hmac mf pb chk (v_first_keeps v) s (match c_cc cn with Some c => c | None => new_cc end) (c_addr cn) h a H) as Hm.
+  destruct (auth hmac mf pb chk (v_first_keeps v) s (match c_cc cn with Some c => c | None => new_cc end) (c_addr cn) h) as [[s1 c1] ar] eqn:Ha.
+  cbn in Hm.
+  destruct (handle_shape hmac mf pb chk v s k h cn Hc s1 c1 ar Ha) as [He|(He & _)]; rewrite He.
+  - exact Hm.
+  - unfold install. cbn [banned set_index set_conns].
+    destruct (index (post_auth s1 k cn c1) (ccid c1)) as [k'|]; [|exact Hm].
+    destruct (k' =? k); [exact Hm|]. rewrite evict_banned. exact Hm.
+Qed.
+
+Lemma step_banned_mono hmac mf pb v s e a :
+  banned s a = true -> lifts_ban a e = false -> banned (fst (step hmac mf pb v s e)) a = true.
+Proof.
+  intros H Hl. destruct e; cbn [step fst]; try exact H; try discriminate Hl.
+  - apply handle_banned_mono. exact H.
+  - cbn. unfold upd. destruct (a =? a0); [reflexivity|exact H].
+  - cbn in *. unfold upd. rewrite N.eqb_sym, Hl. exact H.
+  - destruct (clients s x); exact H.
+  - destruct (v_anon_delete v); exact H.
+  - unfold rekey. destruct (clients s x); exact H.
+  - destruct (clients s x); exact H.
+  - unfold close. cbn. rewrite evict_banned. exact H.
+  - unfold close. cbn. rewrite evict_banned. exact H.
+  - destruct (clients s x); exact H.
+  - apply handle_banned_mono. exact H.
+Qed.
+
+Theorem ban_in_force_persists hmac mf pb v es : forall s a,
+  banned s a = true -> forallb (fun e => negb (lifts_ban a e)) es = true ->
+  banned (run hmac mf pb v s es) a = true.
+Proof.
+  induction es as [|e es IH]; intros s a H Hall; [exact H|].
+  cbn in Hall. apply andb_prop in Hall as [He Hall]. apply negb_true_iff in He.
+  cbn. apply IH; [|exact Hall]. apply step_banned_mono; assumption.
 Qed.
